@@ -8,6 +8,7 @@
 From Coq Require Import QArith Qminmax List Bool Arith.
 From WSI Require Import Vqip Pow Tank Arc QTank Run TankLaws ArcLaws QTankLaws QueueLaws.
 From WSI Require Net NetLaws.
+From WSI Require Import Distrib Kinds TimeArea DecayQTank TimeAreaLaws.
 Import ListNotations.
 Open Scope Q_scope.
 
@@ -52,3 +53,15 @@ Theorem C03_network_system_ledger : forall maxiter fuel os s s' ks,
   NetLaws.qsum (map (NetLaws.balance s') ks) == NetLaws.qsum (map (NetLaws.balance s) ks).
 Proof. exact NetLaws.system_ledger. Qed.
 Print Assumptions C03_network_system_ledger.
+
+(* an abstraction from a time-area groundwater store (QueueGroundwater.pull_set_active reaches into the queue tank: it
+   takes the same share of every bucket of the queue and of what has arrived): what it hands out is exactly what the
+   declared contents drop by, and the tank still declares what it holds plus the decay still to be booked - for volume
+   and every additive pollutant, plain or decaying tank, any request *)
+Theorem C03_abstraction_from_a_time_area_store_keeps_its_books : forall S (n : qnode S) q, qledger (qn_t S n) ->
+  qledger (qn_t S (fst (qg_pull_set S n q))) /\
+  (forall c, conserved c ->
+     cmp c (snd (qg_pull_set S n q)) == cmp c (s_sto (qt_s (qn_t S n))) - cmp c (s_sto (qt_s (qn_t S (fst (qg_pull_set S n q)))))) /\
+  l_decayed (qt_l (qn_t S (fst (qg_pull_set S n q)))) = l_decayed (qt_l (qn_t S n)).
+Proof. exact qg_pull_ledger. Qed.
+Print Assumptions C03_abstraction_from_a_time_area_store_keeps_its_books.
